@@ -105,7 +105,8 @@ class World:
               ("remove", path) ("flush",) ("exit", code)
     """
 
-    def __init__(self, path="/pels", files=(), subdirs=None, extra=None, fault_at=None, dirs=()):
+    def __init__(self, path="/pels", files=(), subdirs=None, extra=None, fault_at=None, dirs=(), fault_kind="enospc"):
+        self.fault_kind = fault_kind
         self.path = path
         self.files = list(files)
         self.subdirs = dict(subdirs or {})
@@ -122,6 +123,10 @@ class World:
         self.steps += 1
         if self.fault_at is not None and self.fault_at == self.steps:
             self.events.append(("fault", what, self.steps))
+            if self.fault_kind == 1 or self.fault_kind == "epipe":
+                raise BrokenPipeError(32, "Broken pipe (injected at step %d: %s)" % (self.steps, what))
+            if self.fault_kind == 2 or self.fault_kind == "eio":
+                raise FaultInjected(5, "Input/output error (injected at step %d: %s)" % (self.steps, what))
             raise FaultInjected(28, "No space left on device (injected at step %d: %s)" % (self.steps, what))
 
     # ---- lookup
@@ -211,6 +216,9 @@ class FakeStdout:
         self.w._step("flush-stdout")
         self.w.events.append(("flush",))
 
+    def fileno(self):
+        return 1
+
 
 class FakeSys:
     def __init__(self, world, argv):
@@ -264,6 +272,25 @@ class FakeOs:
 
     def listdir(self, p):
         return [n for n, _ in self.w.files]
+
+    # low-level descriptor calls: recorded, harmless (a tool may re-point its stdout, e.g. to /dev/null)
+    def open(self, path, flags=0, *a, **k):
+        self.w.events.append(("os_open", path))
+        return 1000 + len(self.w.events)
+
+    def dup2(self, fd, fd2, *a, **k):
+        self.w.events.append(("dup2", fd, fd2))
+        return fd2
+
+    def close(self, fd):
+        self.w.events.append(("os_close", fd))
+
+    def __getattr__(self, name):
+        import os as _os
+        v = getattr(_os, name)
+        if callable(v) and not isinstance(v, type):
+            raise AttributeError("os.%s is not available in the in-memory world" % name)
+        return v          # constants such as os.devnull, os.O_WRONLY, os.sep
 
 
 def make_open(world):
